@@ -24,11 +24,11 @@ from .common import patched
 from pvc import core
 from pvc.core import Sym
 
-MODULES = ['dassh.power', 'dassh.reactor']
+MODULES = ['dassh.power', 'dassh.reactor', 'dassh.assembly']
 PROPERTY = 'C03'
 FUNCTIONS = ['dassh.power:_integrate', 'dassh.power:AssemblyPower.presweep_setup', 'dassh.power:AssemblyPower.get_power_sweep',
              'dassh.power:AssemblyPower._calculate_pdist', 'dassh.power:AssemblyPower.__init__',
-             'dassh.reactor:Reactor._setup_scale_asm_power', 'dassh.assembly:Assembly.calculate (power tally; run-time contract)']
+             'dassh.reactor:Reactor._setup_scale_asm_power', 'dassh.assembly:Assembly.calculate (power tally)', 'dassh.assembly:Assembly._identify_active_region']
 ASSUMPTIONS = ['axial mesh planes lie on every power-cell boundary and on the pin-bundle bounds (post-condition of the '
                'axial mesh, C05): the steps partition each power cell',
                'power-cell boundaries are on the 1e-10 cm rounding grid of AssemblyPower.__init__ and step midpoints on '
@@ -249,6 +249,136 @@ def init_scale(S, cfg):
 init_scale.cname = 'AssemblyPower.__init__'
 
 
+class _RegionRec:
+    def __init__(self):
+        self.calls = []
+        self.dp_calls = []
+
+    def calculate(self, dz, q, t_gap, h_gap, adiabatic, ebal):
+        self.calls.append(dict(dz=dz, q=q, t_gap=t_gap, h_gap=h_gap, adiabatic=adiabatic, ebal=ebal))
+
+    def calculate_pressure_drop(self, z, dz):
+        self.dp_calls.append((z, dz))
+
+
+class _PowerRec:
+    def __init__(self, table):
+        self.table = table
+        self.asked = []
+
+    def get_power_sweep(self, step=None, z=None):
+        self.asked.append(z)
+        return self.table
+
+
+def assembly_tally(S, cfg):
+    """Assembly.calculate: the power the assembly books as delivered in a step is step x the sum of what the power
+    object returns for that step, per component; exactly that dictionary is what the active region is given"""
+    from dassh import assembly as A
+    sym = S.mode == 'sym'
+    asm = A.Assembly.__new__(A.Assembly)
+    reg = _RegionRec()
+    asm.region = [reg]
+    asm._active_region_idx = 0
+    z0 = S.nonneg('z0', 0.0, 1.0)
+    asm._z = z0
+    comps = cfg['components']
+    table = {'pins': None, 'cool': None, 'duct': None, 'refl': None}
+    for c in comps:
+        table[c] = S.vec(f'q_{c}', {'pins': 3, 'cool': 4, 'duct': 2, 'refl': 1}[c], 'real', 0.0, 100.0)
+        if c == 'refl':
+            table[c] = table[c][0]
+    asm.power = _PowerRec(table)
+    old = {k: S.nonneg(f'delivered0_{k}', 0.0, 50.0) for k in table}
+    asm._power_delivered = dict(old)
+    dz = S.pos('dz', 0.001, 0.02)
+    t_gap = S.vec('Tgap', 2, 'pos', 600.0, 900.0)
+    h_gap = S.vec('hgap', 2, 'pos', 1e4, 1e5)
+    explicit = cfg.get('explicit_z', False)
+    z = z0 + dz
+    with patched((A.Assembly, '_update_peak_coolant_temps', lambda self: None),
+                 (A.Assembly, '_update_peak_duct_temps', lambda self: None)):
+        if explicit:
+            asm.calculate(dz, t_gap, h_gap, z=z, adiabatic=False, ebal=True)
+        else:
+            asm.calculate(dz, t_gap, h_gap, adiabatic=False, ebal=True)
+    for k in table:
+        inc = 0
+        if table[k] is not None:
+            inc = dz * (sum(table[k]) if k != 'refl' else table[k])
+        S.eq(f'tally.delivered[{k}]', asm._power_delivered[k], old[k] + inc)
+    S.holds('tally.region_called_once', len(reg.calls) == 1)
+    S.holds('tally.region_gets_the_same_power', reg.calls[0]['q'] is table)
+    S.eq('tally.region_step', reg.calls[0]['dz'], dz)
+    S.eq('tally.region_gap_temperature', reg.calls[0]['t_gap'], t_gap)
+    S.eq('tally.region_gap_htc', reg.calls[0]['h_gap'], h_gap)
+    S.eq('tally.height_advanced', asm._z, z0 + dz)
+    if explicit:
+        S.eq('tally.power_asked_at_midpoint', asm.power.asked[0], z - dz / 2)
+    S.eq('canary.tally_counts_twice', asm._power_delivered[comps[0]], old[comps[0]], canary=True)
+
+
+assembly_tally.cname = 'Assembly.calculate'
+
+
+def region_matches_power(S, cfg):
+    """for every axial step that does not straddle a region bound (C05), the region Assembly activates for the step
+    (bisection on the upper plane) is the pin bundle exactly when AssemblyPower serves bundle power for the step
+    (test on the midpoint): pins / coolant / duct power never reaches an unrodded region and vice versa"""
+    from dassh import assembly as A
+    from dassh import power
+    sym = S.mode == 'sym'
+    where = cfg['bundle']          # 'middle' | 'bottom' | 'top' | 'whole'
+    L = S.pos('core_length', 1.0, 3.0)
+    S.assume(L * 100 < 99999, 'core shorter than the 99999 cm sentinel of AssemblyPower')
+    f1 = S.pos('f1', 0.1, 0.4)
+    f2 = S.pos('f2', 0.1, 0.4)
+    # regions are not microscopic: AssemblyPower snaps a bundle top within 1e-12 cm of the core top to "the top"
+    S.assume(L >= 0.1, 'core at least 0.1 m long')
+    for f in (f1, f2):
+        S.assume(f >= 0.001, 'axial regions of comparable size')
+        S.assume(f <= 1000, 'axial regions of comparable size')
+    b1, b2 = L * f1 / (1 + f1 + f2), L * (1 + f1) / (1 + f1 + f2)      # 0 < b1 < b2 < L
+    if where == 'middle':
+        bnd, rod, rodded_idx = [0, b1, b2], (b1, b2), 1
+    elif where == 'bottom':
+        bnd, rod, rodded_idx = [0, b2], (0, b2), 0
+    elif where == 'top':
+        bnd, rod, rodded_idx = [0, b1], (b1, L), 1
+    else:
+        bnd, rod, rodded_idx = [0], (0, L), 0
+    asm = A.Assembly.__new__(A.Assembly)
+    asm.region_bnd = list(bnd)
+    # one power cell over the whole core, constant profiles
+    one = np.ones((1, 1, 1), dtype=object if sym else float)
+    avg = np.ones(1, dtype=object if sym else float)
+    with patched((power.np, 'around', lambda x, n=0: x)) if sym else patched():
+        ap = power.AssemblyPower({'pins': one.copy()}, avg, np.array([0, L * 100], dtype=object if sym else float),
+                                 [rod[0] * 100, rod[1] * 100])
+    za = S.nonneg('z_a_frac', 0.0, 1.0)
+    dzf = S.pos('dz_frac', 0.01, 0.3)
+    z_a = L * za / (1 + za + dzf)
+    z_b = L * (za + dzf) / (1 + za + dzf)                                # 0 <= z_a < z_b < L
+    if cfg.get('last_step'):
+        z_b = L
+    for b in list(bnd[1:]) + [rod[0], rod[1]]:
+        if sym:
+            S.assume((b <= z_a) | (b >= z_b), 'no region bound strictly inside the step (C05)')
+        else:
+            S.assume(bool(b <= z_a or b >= z_b), 'no region bound strictly inside the step (C05)')
+    idx = asm._identify_active_region(z_b)
+    with patched((power.np, 'around', lambda x, n=0: x)) if sym else patched():
+        p = ap.get_power_sweep(z=(z_a + z_b) / 2)
+    bundle_power = p['refl'] is None
+    S.holds('step.region_is_bundle_iff_power_is_bundle', (idx == rodded_idx) == bundle_power)
+    S.holds('step.region_index_valid', 0 <= idx < len(bnd))
+    S.holds('canary.step_always_bundle', bundle_power, canary=(where != 'whole' and not cfg.get('last_step')))
+
+
+region_matches_power.cname = 'Assembly._identify_active_region/AssemblyPower.get_power_sweep'
+region_matches_power.run_kw = dict(max_paths=200, check_div=False)
+
+
 def configs(tier):
     out = [(integrate, dict(n_reg=2, n_terms=1)), (integrate, dict(n_reg=2, n_terms=3)),
            (integrate, dict(n_reg=1, n_terms=4, which=('pins', 'cool'))),
@@ -263,7 +393,12 @@ def configs(tier):
            (sweep_total, dict(cells=[2, 2], n_terms=1, bundle=(1, 3))),
            (scale_core, dict(n_asm=2)), (scale_core, dict(n_asm=3, user_total=False)),
            (scale_core, dict(n_asm=3, empty=True)), (scale_core, dict(n_asm=2, scaled=False)),
-           (init_scale, dict())]
+           (init_scale, dict()),
+           (assembly_tally, dict(components=('pins', 'cool', 'duct'))), (assembly_tally, dict(components=('refl',))),
+           (assembly_tally, dict(components=('pins',), explicit_z=True)),
+           (region_matches_power, dict(bundle='middle')), (region_matches_power, dict(bundle='bottom')),
+           (region_matches_power, dict(bundle='top')), (region_matches_power, dict(bundle='top', last_step=True)),
+           (region_matches_power, dict(bundle='whole'))]
     if tier == 'thorough':
         out += [(integrate, dict(n_reg=3, n_terms=4)),
                 (sweep_total, dict(cells=[2, 2, 1], n_terms=2, bundle=(1, 4))),
